@@ -294,7 +294,7 @@ def genericElems (rec : RTy → Flags → Ty → Ty → St → NR) (vis : SeqVis
 /-- … under the big-number shortcut: the cost of all elements up front, no check per element -/
 def bigElems (rec : RTy → Flags → Ty → Ty → St → NR) (vis : SeqVisitor) (t : RTy) (fl : Flags) (b : Big) (wire ee : Ty)
     (n : Nat) (s2 : St) : R (List Val × Flags) :=
-  if n * 3 > usizeMax then .err .other else
+  if n * 3 > usizeMax then .err .limit else
   (addCost s2 (n * 3)).bind fun _ s3 =>
     (runSeq vis (fun f s => rec t f wire ee s) n { fl with big := some b } s3).map fun (vs, _) => (vs, Flags.clear)
 
@@ -303,7 +303,7 @@ def bulkElem (p : Prim) (f : Flags) (s : St) : NR := withFlags f (rd (decPrim p)
 /-- … of identical primitive type on both sides: the bulk reader (`PrimitiveVecAccess`) -/
 def bulkElems (renv : REnv) (vis : SeqVisitor) (t : RTy) (fl : Flags) (p : Prim) (n : Nat) (s2 : St) : R (List Val × Flags) :=
   let size := (primSize p).getD 1
-  if n * (3 + size) > usizeMax then .err .other else
+  if n * (3 + size) > usizeMax then .err .limit else
   (addCost s2 (n * (3 + size))).bind fun _ s3 =>
     if n * size > s3.input.length then .err .eof
     else
